@@ -25,6 +25,17 @@ ARMS = {
 }
 
 
+# one guaranteed start text per classification arm (every shard drives all of them)
+ARM_TEXTS = [
+    "(a + b) + c", "a + (b + c)", "(a * b) * c", "a * (b * c)", "a + b", "a * b", "x = y", "2 + 3", "7 - 2", "4 * 2.5", "7 / 2", "2^3", "-(3 + 2)", "(4n * 2) + 3",
+    "2 + (3 + x)", "2 * (3 * x)", "2 + ((3 + x) + y)", "2 * ((3 * x) * y)", "7q * 10y^3", "(7q * 10y^3) * x", "792z^4 * 490f * q^3",
+    "(u^3 * 36c^6) * 7u^3", "4x + 2x", "4x^2 + 2x^2", "(a + 2x) + (3x + b)", "(4 + p) + p", "(a + (b + 2x)) + 3x", "2x + ((3x + a) + b)",
+    "p + (p + 2x)", "4 + 6", "(a + b) * c", "a * (b + c)", "a / b", "a / -b", "(2 + 3z) / -z", "a - b", "4 - 3x", "4 - -3", "4 - -x", "4 + -3",
+    "4 + -3x", "4 + -3x^2", "x * x^3", "2x^2 * 4x", "x * (x * y)", "(36c^6 * u^3) * 7u^3", "x + 2 = 3", "3x = 6", "3x + 7 = 2 + 4x", "2x = 6x - 8",
+    "3 = 2 + x", "6 = 3x", "x + y + 2 = 3 + z", "-x = 4", "2 * 3x = 12",
+]
+
+
 def required_apply_arms(minimum=3, rules=None):
     req = {}
     for label, tags in ARMS.items():
@@ -65,6 +76,8 @@ def problem_texts(cfg, rng, n):
 def start_texts(cfg, rng, n_random, equations=0.25):
     """(source, text, hints) stream: W1 corpus, W2 problems, W3/W4 random and templates."""
     corp = WT.corpus()
+    for s in ARM_TEXTS:
+        yield "arm-text", s, []
     for i, s in enumerate(corp):
         if cfg.mine(i):
             yield "corpus", s, []
